@@ -9,6 +9,8 @@ From CG Require Import Model.Check.
 From CG Require Import Model.Dfa.
 From CG Require Import Spec.Choice.
 From CGgen Require Import Consts.
+From CG Require Import Model.Regex.
+From CG Require Import Model.Subset.
 (* add new Require lines above this line *)
 Require Import ExtrOcamlBasic ExtrOcamlString.
 Extraction Language OCaml.
@@ -23,5 +25,16 @@ Separate Extraction
   Dfa.mkall
   Dfa.trans_states
   Choice.spec
+  Regex.from_valid_expr
+  Regex.from_expr
+  Regex.regex_first
+  Regex.regex_follow
+  Regex.arena_consistent
+  Regex.unfold_arena
+  Subset.dfa_from_regex
+  Subset.valid_submap
+  Subset.pick_first
+  Subset.pick_last
+  Subset.pick_script
   (* add new roots above this line *)
   Prelude.pow2.
